@@ -41,6 +41,8 @@ pub struct FnDirective {
     pub refvars: Vec<String>,
     pub self_is_ref: bool,
     pub allow_macros: Vec<String>,
+    /// R16 (opt-in, `//@ try-into-as-try-from`): `e.try_into()` -> `core::convert::TryFrom::try_from(e)`
+    pub tryinto_as_tryfrom: bool,
 }
 
 #[derive(Clone, Debug)]
@@ -51,6 +53,9 @@ pub struct ItemDir {
     pub keep_derive: Vec<String>,
     /// `//@item <file> :: struct X make-pub`: R10 extended to a struct with inherited (private) visibility
     pub make_pub: bool,
+    /// `//@item <file> :: fn f cfg+(feature="x" ...)`: cfg entries ADDED to the unit's set for this item only (lets one unit
+    /// extract both cfg variants of a function; combine with `//@ rename`)
+    pub extra_cfg: Vec<String>,
     pub fnd: Option<FnDirective>,
 }
 
@@ -166,6 +171,7 @@ fn parse_fn_block(name_line: &str, lines: &[(bool, String)]) -> FnDirective {
             "refvars" => curfn!().refvars = rest.split_whitespace().map(|x| x.to_string()).collect(),
             "allow-macro" => curfn!().allow_macros = rest.split_whitespace().map(|x| x.to_string()).collect(),
             "external_body" => curfn!().external_body = true,
+            "try-into-as-try-from" => curfn!().tryinto_as_tryfrom = true,
             "loop" => {
                 let mut it = rest.split_whitespace();
                 let n: usize = it.next().and_then(|x| x.parse().ok()).unwrap_or_else(|| die("loop needs ordinal"));
@@ -324,6 +330,14 @@ pub fn parse_template(tpl: &str) -> Unit {
                     let n = rest.trim_end().len() - " make-pub".len();
                     rest.truncate(n);
                 }
+                let mut extra_cfg = vec![];
+                if let Some(p) = rest.find(" cfg+(") {
+                    let q = rest[p..].rfind(')').map(|q| p + q).unwrap_or_else(|| die("unterminated cfg+("));
+                    extra_cfg.push(rest[p + 6..q].to_string());
+                    let tail = rest[q + 1..].to_string();
+                    rest.truncate(p);
+                    rest.push_str(&tail);
+                }
                 if let Some(p) = rest.find(" derive(") {
                     let inner = rest[p + 8..].trim_end().trim_end_matches(')').to_string();
                     keep = inner.split(',').map(|x| x.trim().to_string()).filter(|x| !x.is_empty()).collect();
@@ -342,7 +356,7 @@ pub fn parse_template(tpl: &str) -> Unit {
                     let nm = parts.last().unwrap()[3..].to_string();
                     fnd = Some(parse_fn_block(&nm, &blk));
                 }
-                unit.segments.push(Segment::Item(ItemDir { file: parts[0].clone(), path: parts[1..].to_vec(), nth, keep_derive: keep, make_pub, fnd }));
+                unit.segments.push(Segment::Item(ItemDir { file: parts[0].clone(), path: parts[1..].to_vec(), nth, keep_derive: keep, make_pub, extra_cfg, fnd }));
             }
             "impl" => {
                 unit.segments.push(Segment::Text(std::mem::take(&mut text)));
